@@ -4,22 +4,51 @@ import vlib
 TRUSTED = [
     "hand-written model coq/C15/RingModel.v of toolkit/buffer/ring.go, tied by differential runs (harness/cmd/c15ring) — not a translation",
     "hand-written model coq/C15/BacklogModel.v of toolkit/buffer/unbounded.go and toolkit/channels/unbounded_backlog.go (sequential use, "
-    "non-blocking receives), tied by differential runs on both implementations (harness/cmd/c15backlog)",
-    "hand-written machine coq/C15/LfqModel.v of toolkit/queues/lock_free.go (one step per atomic load/CAS), tied by per-step replay of "
-    "schedules executed on the instrumented CURRENT source (tie T2: lib/vlib.t2_build, harness/shim/{tsched,atomic}, harness/t2/c15lfq); "
-    "sync/atomic sequentially consistent; nodes never reused while referenced (GC) => no ABA",
+    "non-blocking receives; Close discards the backlog by design), tied by differential runs on both implementations (harness/cmd/c15backlog)",
+    "hand-written machines coq/C15/LfqModel.v (toolkit/queues/lock_free.go) and coq/C15/MpscModel.v (toolkit/queues/mpsc.go), one step per "
+    "atomic operation, tied by per-step replay in Coq of schedules executed on the instrumented CURRENT source (tie T2: lib/vlib.t2_build, "
+    "harness/shim/{tsched,atomic}, harness/t2/c15lfq, harness/t2/c15mpsc); sync/atomic sequentially consistent; nodes never reused while "
+    "referenced (GC) => no ABA; MPSC: single consumer (documented contract), its plain accesses are consumer-private",
+    "hand-written machines coq/C15/RuPumpModel.v (toolkit/buffer/ring_unbounded.go, REPAIRED by fixes/C15-ringunbounded-close.patch) and "
+    "coq/C15/UrPumpModel.v (toolkit/channels/unbounded_ring.go, REPAIRED by fixes/C15-unboundedring-cancel.patch): mutex/RWMutex/cond/channel "
+    "as blocking steps, Ring abstracted to its FIFO contents (C15_ring_refines_fifo); tied ONLY by observable traces (received sequence, "
+    "closed flag, accepted flags) of uninstrumented stress runs through the public API (harness/cmd/c15rupump, c15urpump) — NOT replayed step by step; "
+    "RWMutex writer preference not modelled (machine has more interleavings)",
     "Go harnesses + generators + monitors (harness/cmd/c15*, harness/t2/c15*, harness/vh), bin/check, lib/vlib.py",
-    "Go runtime, slices/copy/channel semantics; the controlled scheduler explores interleavings of atomic operations, not compiler/CPU "
-    "reorderings below sync/atomic",
+    "Go runtime, slices/copy/channel/sync semantics; the controlled scheduler explores interleavings of atomic operations, not compiler/CPU "
+    "reorderings below sync/atomic; stress runs depend on the Go scheduler for interleaving coverage",
 ]
-HARNESSES = [{"pkg": "c15ring", "sub": "ring"}, {"pkg": "c15backlog", "sub": "backlog"}]
+HARNESSES = [{"pkg": "c15ring", "sub": "ring"}, {"pkg": "c15backlog", "sub": "backlog"}, {"pkg": "c15rupump", "sub": "rupump"},
+             {"pkg": "c15urpump", "sub": "urpump"}]
 T2 = [  # (sub, package, sources, template dir, monitor kind prefix)
     ("lfq", "queues", ["toolkit/queues/lock_free.go"], "c15lfq", "lfq:"),
+    ("mpsc", "queues", ["toolkit/queues/mpsc.go"], "c15mpsc", "mpsc:"),
 ]
 MANIFEST = {
-    "text": "TODO",
-    "note": "TODO",
-    "technique": "TODO",
+    "text": "Coq theorems for every queue-like container of the toolkit. Ring (ring.go): C15_ring_refines_fifo — for every capacity and every "
+            "sequence of write/read/read-n/read-all/peek/len/cap/reset the outputs equal a list FIFO's. Unbounded / UnboundedBacklog: "
+            "C15_backlog_fifo (received ++ held = accepted for every op sequence), C15_backlog_no_loss_under_protocol / _drain_under_protocol "
+            "(Load after each Get => nothing stranded, n Get;Load rounds return the held values in order), C15_backlog_closed_reports. "
+            "LFQueue (Michael-Scott, lock_free.go; interleaving machine with one step per atomic load/CAS, any number of producers and consumers, "
+            "every schedule): C15_ms_push_linearizes / C15_ms_pop_linearizes (the successful CAS on tail.next appends exactly the pushed value, the "
+            "successful CAS on head removes exactly the first element and that is what Pop returns), C15_ms_other_steps_keep_queue, "
+            "C15_ms_nil_means_was_empty, C15_ms_fifo_exactly_once (pushed = popped ++ contents), C15_ms_no_nil_deref. MPSC (mpsc.go): "
+            "C15_mpsc_fifo_exactly_once, _step_effect, _nothing_invented, _linked_prefix, _nil_allowed_window (a nil Pop only when the queue is empty "
+            "or the producer of its first element is between Swap and Store — allowed, loses nothing), _nothing_stranded, _drain. RingUnbounded and "
+            "UnboundedRing (mutex/cond/pump goroutine; machines of the code as repaired by the two patches in fixes/): C15_rupump_prefix / "
+            "C15_urpump_prefix (accepted = received ++ channel ++ pump-local ++ ring), _drains_after_close (output closed => everything accepted was "
+            "delivered or is still readable), _closes_when_quiescent, and refutations C15_rupump_asis_refuted / C15_urpump_asis_refuted of the code "
+            "as it was. On every run: differential runs (ring, backlog), per-step Coq replay of schedules of the instrumented current source "
+            "(LFQueue, MPSC), stress runs with trace checks (pumps), Go monitors for loss/duplication/reordering/invention/never-closed.",
+    "note": "Trusted: Coq kernel + vm_compute; hand-written models/machines (correspondence checked on the explored inputs/schedules only; the two "
+            "pump machines are tied by observable traces only, not step by step); sync/atomic sequentially consistent; no node reuse (GC); MPSC used "
+            "with a single consumer; RWMutex writer preference not modelled; backlog containers: Close discards the backlog by design (the property "
+            "promises read-after-close only for the ring-backed buffers); no fairness/termination theorem (closes_when_quiescent is the no-stranded form). "
+            "Defects: RingUnbounded Write;Close lost the element and UnboundedRing never closed after context cancellation — both repaired by small "
+            "patches (fixes/C15-ringunbounded-close.patch, fixes/C15-unboundedring-cancel.patch); on the unrepaired tree the check prints VIOLATION "
+            "(rupump:lost-before-close, urpump:never-closed-after-cancel) with replay files.",
+    "technique": "Coq proofs (refinement of a list FIFO; invariants over unbounded-thread interleaving machines with ghost linearization history) + "
+                 "differential runs + per-step schedule replay of the instrumented source in Coq + stress runs with Coq-checked observable traces",
 }
 
 
